@@ -1,5 +1,5 @@
 #!/usr/bin/env python3
-"""Mutation smoke test: tools/mutants.py <ID> [tier]
+"""Mutation smoke test: tools/mutants.py <ID> [tier] [from-to]   (from-to: only mutants numbered in that range)
 Reads harness/<ID>/mutants.txt; each non-comment line:  <repo-relative file> ::: <old text> ::: <new text> [::: equivalent]
 Builds a mutated copy of the file (first occurrence of <old text> replaced), runs the check with the copy injected
 by overlay (never touching /repo) and expects exit 1 (VIOLATION). Lines marked 'equivalent' are expected to survive; 'occ=N' mutates the N-th occurrence of <old text>."""
@@ -8,6 +8,7 @@ V = os.path.dirname(os.path.dirname(os.path.abspath(__file__)))
 pid = sys.argv[1]; tier = sys.argv[2] if len(sys.argv) > 2 else "quick"
 spec = os.path.join(V, "harness", pid, "mutants.txt")
 ok = True; n = 0
+lo, hi = (1, 10**9) if len(sys.argv) < 4 else tuple(int(x) for x in (sys.argv[3].split("-") * 2)[:2])
 for line in open(spec):
     line = line.rstrip("\n")
     if not line.strip() or line.startswith("#"): continue
@@ -22,6 +23,7 @@ for line in open(spec):
     if old_u not in src:
         print(f"MUTANT-SPEC-STALE {rel}: text not found: {old!r}"); ok = False; continue
     n += 1
+    if n < lo or n > hi: continue
     d = tempfile.mkdtemp(prefix="vxmut")
     f = os.path.join(d, os.path.basename(rel))
     pos = -1
